@@ -68,6 +68,14 @@ def decTriple (v : V) : Option (Int × Int × Int) :=
   | _ => none
 def tOfRow (r : SampleRow) : TSampleRow := ⟨r.peak, r.lastZeroxDecay, r.zeroxDecay, r.zeroxRise, r.lastTrough, r.nextTrough⟩
 
+def decAxis (v : V) : Option Axis :=
+  match v with
+  | .atom "None" => some .none | .atom "0" => some .a0 | .atom "1" => some .a1 | .atom "a01" => some .a01
+  | .atom _ => some .other | _ => none
+def decKwShape (s0 s1 nd k0 k1 ax : V) : Option KwShape := do
+  let s0 ← s0.nat?; let s1 ← s1.opt? V.nat?; let nd ← nd.nat?; let k0 ← k0.nat?; let k1 ← k1.opt? V.nat?; let ax ← decAxis ax
+  pure ⟨s0, s1, nd, k0, k1, ax⟩
+
 def handle (args : List V) : V :=
   match args with
   | [.atom "ping"] => .atom "pong"
@@ -196,14 +204,14 @@ def handle (args : List V) : V :=
     match pc.bool?, decDir dir, rises.listOf? V.rat?, decays.listOf? V.rat? with
     | some pc, some dir, some r, some d => encExcept (encList encF) (ampConsistency pc dir r d)
     | _, _, _, _ => bad "ampcons.model"
-  | [.atom "ampcons.spec", pc, rises, decays] =>
-    match pc.bool?, rises.listOf? V.rat?, decays.listOf? V.rat? with
-    | some pc, some r, some d =>
+  | [.atom "ampcons.spec", pc, dir, rises, decays] =>
+    match pc.bool?, decDir dir, rises.listOf? V.rat?, decays.listOf? V.rat? with
+    | some pc, some dir, some r, some d =>
       let n := r.length
       if n = 0 then encErr .indexError
       else .list [.atom "ok", encList encF ((List.range n).map fun c =>
-        if c = 0 ∨ c + 1 = n then F.nan else ampConsSpec (flankSeq pc r d) c)]
-    | _, _, _ => bad "ampcons.spec"
+        if c = 0 ∨ c + 1 = n then F.nan else ampConsSpecDir dir (flankSeq pc r d) c)]
+    | _, _, _, _ => bad "ampcons.spec"
   | [.atom "percons.model", dir, periods] =>
     match decDir dir, periods.listOf? V.rat? with
     | some dir, some p => encExcept (encList encF) (periodConsistency dir p)
@@ -221,6 +229,19 @@ def handle (args : List V) : V :=
         let (rise, decay) := if pc then (first, second) else (second, first)
         meanF2 (stepFractionSpec false decay) (stepFractionSpec true rise))
     | _, _, _ => bad "mono.spec"
+  -- C19
+  | [.atom "kwshape.model", d, s0, s1, nd, k0, k1, ax] =>
+    match d.bool?, decKwShape s0 s1 nd k0 k1 ax with
+    | some d, some k => .list [encExcept (fun _ => .atom "unit") (checkKwargsShape d k), encExcept (fun _ => .atom "unit") (groupGuard d k)]
+    | _, _ => bad "kwshape.model"
+  | [.atom "kwshape.spec", d, s0, s1, nd, k0, k1, ax] =>
+    match d.bool?, decKwShape s0 s1 nd k0 k1 ax with
+    | some d, some k =>
+      let chk : Bool := d || decide (Documented k)
+      let grp : Bool := (d && axisValid k) || (!d && decide (Documented k))
+      .list [if chk then .list [.atom "ok", .atom "unit"] else encErr .valueError,
+             if grp then .list [.atom "ok", .atom "unit"] else encErr .valueError]
+    | _, _ => bad "kwshape.spec"
   | _ => bad "unknown-command"
 
 partial def loop (hin : IO.FS.Stream) (hout : IO.FS.Stream) : IO Unit := do
